@@ -34,13 +34,13 @@ func runC05(c *engine.Ctx, tier string) {
 		return p.Events[i].Recv != c.Al.Resolve("PLUGIN")
 	}}, None: true, Why: "Validate is called on the plugin looked up by the proposal's TargetType/TargetVersion"})
 	c.Outcome(engine.Outcome{ID: "C05.1c", Pkg: pkgProposalCtl, Root: "Reconciler.Reconcile", Min: 1,
-		When: "err(@P) == nil && @P.Status.Phases.Apply == nil && @P.Status.Phases.Abort == nil && @P.Status.Phases.Commit == nil && @P.Status.Phases.Validate != nil && !ok(@PLUGIN)",
-		Must: []engine.Sel{{Field: "config/v2.ProposalValidatePhase.State", RHS: "config/v2.ProposalValidatePhase_FAILED"}, {Field: "config/v2.Failure.Type", RHS: "config/v2.Failure_INVALID", OnlyLit: true}},
+		When:    "err(@P) == nil && @P.Status.Phases.Apply == nil && @P.Status.Phases.Abort == nil && @P.Status.Phases.Commit == nil && @P.Status.Phases.Validate != nil && !ok(@PLUGIN)",
+		Must:    []engine.Sel{{Field: "config/v2.ProposalValidatePhase.State", RHS: "config/v2.ProposalValidatePhase_FAILED"}, {Field: "config/v2.Failure.Type", RHS: "config/v2.Failure_INVALID", OnlyLit: true}},
 		MustNot: []engine.Sel{validated, {Call: pluginValidate}},
 		Why:     "no plugin for the target's type/version: the proposal fails as INVALID"})
 	c.Outcome(engine.Outcome{ID: "C05.1d", Pkg: pkgProposalCtl, Root: "Reconciler.Reconcile", Min: 1,
-		When: "#failed(" + pluginValidate + ")",
-		Must: []engine.Sel{{Field: "config/v2.ProposalValidatePhase.State", RHS: "config/v2.ProposalValidatePhase_FAILED"}, {Field: "config/v2.Failure.Type", RHS: "config/v2.Failure_INVALID", OnlyLit: true}},
+		When:    "#failed(" + pluginValidate + ")",
+		Must:    []engine.Sel{{Field: "config/v2.ProposalValidatePhase.State", RHS: "config/v2.ProposalValidatePhase_FAILED"}, {Field: "config/v2.Failure.Type", RHS: "config/v2.Failure_INVALID", OnlyLit: true}},
 		MustNot: []engine.Sel{validated, {Field: "config/v2.ProposalStatus.RollbackValues"}},
 		Why:     "a rejected candidate fails the proposal as INVALID and captures nothing"})
 	c.Guard(engine.Guard{ID: "C05.3", Pkg: pkgProposalCtl, Min: 1, Sel: engine.Sel{Call: pluginValidate},
@@ -377,7 +377,9 @@ func chunkCursor(c *engine.Ctx) {
 	}
 }
 
-func isIntType(s string) bool { return s == "int" || s == "int64" || s == "uint" || s == "uint64" || s == "int32" }
+func isIntType(s string) bool {
+	return s == "int" || s == "int64" || s == "uint" || s == "uint64" || s == "int32"
+}
 
 // splitSlice parses "$jsonData[lo:hi]".
 func splitSlice(s string) (lo, hi string, ok bool) {
